@@ -331,9 +331,9 @@ Theorem C19_built_fragmented_trex :
 Proof. exact built_all. Qed.
 Print Assumptions C19_built_fragmented_trex.
 
-(* C19_roundtrip over a COMPLETE SMALL SCOPE (251 histories, enumerated in C19TreeScopeProofs.small_scope and
+(* C19_roundtrip over a COMPLETE SMALL SCOPE (271 histories, enumerated in C19TreeScopeProofs.small_scope and
    decided inside Coq): one or two tracks over the seven media types, 3-letter / 2-letter / BCP-47 tags, each track
-   with none or one of the fitting descriptor sequences (AVC, HEVC, AVC then HEVC, AC-3, E-AC-3, wvtt, stpp).
+   with none or one of the fitting descriptor sequences (AVC, HEVC, AVC then HEVC, AAC, AC-3, E-AC-3, wvtt, stpp).
    The full statement (every op sequence) is NOT proved: it needs a print-then-parse lemma for every box kind of
    C01's decoder; on the real code it is evaluated by the search. *)
 Theorem C19_roundtrip_partial :
@@ -413,12 +413,12 @@ Proof.
   intros sps w h cfg E. unfold ex_hevc_const in E. inversion E. vm_compute. reflexivity.
 Qed.
 
-(* the small scope is not empty or trivial: 251 histories; number 209 is a two-track history of five calls: a video
+(* the small scope is not empty or trivial: 271 histories; number 209 is a two-track history of five calls: a video
    track with an avc3 and then a hev1 sample entry, and an audio track with a descriptor (E-AC-3) *)
 Example C19_small_scope_hyp :
-  lenN small_scope = 251 /\ In (nth 84 small_scope []) small_scope
+  lenN small_scope = 271 /\ In (nth 92 small_scope []) small_scope
   /\ map (fun o => match o with AddEmptyTrack _ m _ => m | SetDesc _ (DAvc n _ _ _) => n | SetDesc _ (DHevc n _ _ _ _ _) => n
-                               | SetDesc _ _ => [] end) (nth 84 small_scope [])
+                               | SetDesc _ _ => [] end) (nth 92 small_scope [])
      = [BS "video"; BS "avc3"; BS "hev1"; BS "audio"; []].
 Proof.
   split; [exact small_scope_size|]. split; [|vm_compute; reflexivity].
